@@ -142,8 +142,13 @@ structure TerCfg where
   unrolls : Nat          -- number_of_unrolls
   deriving Repr
 
-/-- fixed-threshold branch: `K.cast(|x| >= thres) * sign(x)` -/
-def terCodeFixed (thres x : Rat) : Rat := if thres ≤ rabs x then sgn x else 0
+/-- `k_sign = sign(x); k_sign += 1 - |k_sign|`: the sign with zero counted as positive -/
+def sgnPos (x : Rat) : Rat := if x < 0 then -1 else 1
+
+/-- fixed-threshold branch: `K.cast(|x| >= thres) * k_sign` with `k_sign = sign(x) + (1 - |sign(x)|)`
+    (since the fix `ternary with threshold 0 gives the input 0 a non-zero code`; before it the factor was
+    `sign(x)`, and `threshold = 0` gave the input 0 the code 0) -/
+def terCodeFixed (thres x : Rat) : Rat := if thres ≤ rabs x then sgnPos x else 0
 
 /-- one element of the `auto` loop body for the current (broadcast) scale `s`:
       v = scale * round(x / scale);  q = cast(|v| >= scale/2) * sign(x)
@@ -250,16 +255,17 @@ def thresOfArg (c : Fl) : Arg → Except Err Rat
 /-- `min_po2_exponent` / `max_po2_exponent` as handed over -/
 inductive ExpArg
   | none
-  | py (e : Int)        -- python int, python float, numpy float: `2**e` is the power of two
-  | npInt (e : Int)     -- numpy integer (scalar or 0-d array): `2**e` is an integer power
+  | py (e : Int)        -- python int, python float, numpy float
+  | npInt (e : Int)     -- numpy integer (scalar or 0-d array)
   deriving Repr, DecidableEq
 
-/-- `2**min_po2_exponent` in `_clip_po2_scale`: numpy refuses negative integer powers of integers
-    ("Integers to negative integer powers are not allowed": ValueError) -/
+/-- `2.0**min_po2_exponent` in `_clip_po2_scale`: a float power, whatever form carries the exponent
+    (since the fix `_clip_po2_scale accepts numpy-integer exponent bounds`; `2**e` raised ValueError
+    "Integers to negative integer powers are not allowed" for a negative numpy integer) -/
 def expOfArg : ExpArg → Except Err (Option Int)
   | .none => .ok Option.none
   | .py e => .ok (some e)
-  | .npInt e => if e < 0 then .error .valueError else .ok (some e)
+  | .npInt e => .ok (some e)
 
 /-- process-level state read at call time -/
 structure Env where
@@ -292,15 +298,17 @@ def BinAttrs.ofStochastic (alpha : Arg) : BinAttrs :=
   { use01 := false, alpha := alpha, sa := .none, eps := .none, minE := .none, maxE := .none }
 
 /-- `scale_axis` as the call sees it: only consulted on the data-dependent paths for inputs of rank > 1
-    (`_get_scale_mean`); negative axes with `elements_per_scale` are not modelled (rejected here) -/
+    (`_get_scale_mean`), where negative axes are counted from the end on both paths (with and without
+    `elements_per_scale`); axes below `-rank` (not axes of the tensor) with `elements_per_scale` are not
+    modelled (rejected here) -/
 def BinAttrs.axis (o : BinAttrs) (a : Alpha) (rank : Nat) : Except Err AxisSpec :=
   match a with
   | .auto | .autoPo2 =>
     if rank ≤ 1 then .ok .none
-    else match axisOfArg o.sa, o.eps with
+    else match axisOfArg rank o.sa, o.eps with
       | .error e, _ => .error e
       | .ok sa, .none => .ok sa
-      | .ok sa, _ => if o.sa.nonneg then .ok sa else .error .assert
+      | .ok sa, _ => if o.sa.inRange rank then .ok sa else .error .assert
   | _ => .ok .none
 
 /-- the configuration a call on an input of rank `rank` works with: attributes as they are NOW, data
@@ -332,17 +340,12 @@ def BinObj.call (c : Fl) (env : Env) (o : BinObj) (shape : List Nat) (x : List R
     | .error e => (.error e, o)
     | .ok es => (.ok es, { o with scale := some (es.map (·.scale)) })
 
-/-- `q(x)` with `x` a numpy array (anything whose `.shape` is a tuple, not a `TensorShape`): the same,
-    EXCEPT on the `elements_per_scale` path — `_get_scale_mean` reads `x.shape.as_list()` without the
-    `except AttributeError` fallback `_get_least_squares_scale` (and both `__call__`s) have, so the call
-    raises AttributeError there (reported with the non-assert error kind) -/
+/-- `q(x)` with `x` a numpy array (anything whose `.shape` is a tuple, not a `TensorShape`): the same as
+    with the tensor of the same values on every path (since the fix `_get_scale_mean reads the shape of
+    numpy inputs`: `_get_scale_mean` has the `except AttributeError: list(x.shape)` fallback its caller has;
+    before it the `elements_per_scale` path raised AttributeError) -/
 def BinObj.callNp (c : Fl) (env : Env) (o : BinObj) (shape : List Nat) (x : List Rat) :
-    Except Err (List Elt) × BinObj :=
-  match o.a.cfg env shape.length with
-  | .ok cfg =>
-    if (cfg.alpha == .auto || cfg.alpha == .autoPo2) && decide (1 < shape.length) && cfg.grp.eps != .none
-    then (.error .valueError, o) else o.call c env shape x
-  | .error _ => o.call c env shape x
+    Except Err (List Elt) × BinObj := o.call c env shape x
 
 /-- what can be done to a live object between / instead of calls -/
 inductive BinOp
